@@ -235,8 +235,42 @@ def g_op(op):
     raise ValueError(k)
 
 
-def spec_of(adj, tasks):
-    return {"adj": adj, "tasks": {str(n): f for n, f in tasks.items()}, "den": DEN}
+def spec_of(adj, tasks, late=None):
+    d = {"adj": adj, "tasks": {str(n): f for n, f in tasks.items()}, "den": DEN}
+    if late:
+        d["late"] = late
+    return d
+
+
+def late_edges(rng, adj, k=0):
+    """edges of `adj` that the adapter declares AFTER the TaskGraph was built and queried once (Graph.add_child called
+    directly, the way the loaders wire graphs): the graph evolves while it is in use.  Only edges whose later addition
+    reproduces exactly the structure of `adj` (same key order, same children and parent orders) are eligible, so the
+    model — which knows only the final graph — is unaffected.  Returned in the order in which they are added back."""
+    import random as _r
+    r2 = _r.Random("%s/%d/%r" % (repr(rng.getstate()[1][:4]), k, adj))   # derived: `rng` itself is not advanced
+    if r2.random() >= 0.3:
+        return []
+    cur = [[n, list(cs)] for n, cs in adj]
+    removed = []
+    for _ in range(r2.choice([1, 1, 2, 3])):
+        par = parents_of(cur)
+        cands = []
+        for k, (n, cs) in enumerate(cur):
+            if not cs:
+                continue
+            c = cs[-1]
+            if par[c] and par[c][-1] == n and par[c].count(n) == 1:
+                trial = [[m, list(x)] for m, x in cur]
+                trial[k][1] = trial[k][1][:-1]
+                if key_order(trial) == key_order(cur):
+                    cands.append((k, n, c))
+        if not cands:
+            break
+        k, n, c = r2.choice(cands)
+        cur[k][1] = cur[k][1][:-1]
+        removed.append([n, c])
+    return list(reversed(removed))
 
 
 def rand_opts(rng, nodes, tasks):
@@ -299,7 +333,10 @@ def fix_draws(adj, tasks, op):
 def run_correspondence(ctx, stream, triples, what):
     """triples: (adj, tasks, op).  Runs the real classes and the model; reports disagreements.
     Returns the implementation's results (None when the model could not be evaluated)."""
-    payload = {"cases": [{"graphs": [spec_of(a, t)], "op": op} for a, t, op in triples]}
+    lates = [late_edges(ctx.rng, a, k) for k, (a, t, op) in enumerate(triples)]
+    st = ctx.cov["streams"].setdefault(stream, {"cases": 0, "disagreements": 0})
+    st["cases_with_edges_declared_after_first_query"] = st.get("cases_with_edges_declared_after_first_query", 0) + sum(1 for l in lates if l)
+    payload = {"cases": [{"graphs": [spec_of(a, t, l)], "op": op} for (a, t, op), l in zip(triples, lates)]}
     impl = core.run_impl("taskgraph.py", payload)
     for (a, t, op), order in zip(triples, impl["orders"]):
         if order != key_order(a):
